@@ -112,16 +112,19 @@ def opEnc (a : Acc) (ln : Nat) (l : Line) : Acc := Id.run do
       if d.bytes != comp.size then
         a := a.fail ln l "rt" s!"stream ends at byte {d.bytes} but {comp.size} bytes were emitted"
   if d.verdict == "accept" then
-    if modes.contains "stored" && d.blocks.any (·.btype != 0) then
-      a := a.fail ln l "mode" "level 0 emitted a non-stored block"
+   let cfg := s!"level={l.get "level"} strategy={l.get "strategy"} fmt={l.get "fmt"} wb={l.get "wb"}"
+   if checks.contains "mode" then
+    -- empty blocks are flush markers (Partial flush = empty fixed block), not data
+    if modes.contains "stored" && d.blocks.any (fun b => b.btype != 0 && b.outEnd != b.outStart) then
+      a := a.fail ln l "mode" s!"level 0 emitted a non-stored data block [{cfg}]"
     if modes.contains "fixed" && d.blocks.any (·.btype == 2) then
-      a := a.fail ln l "mode" "fixed strategy emitted a dynamic block"
+      a := a.fail ln l "mode" s!"fixed strategy emitted a dynamic block [{cfg}]"
     if modes.contains "huff" && ts.nmatch != 0 then
-      a := a.fail ln l "mode" s!"huffman-only emitted {ts.nmatch} matches"
+      a := a.fail ln l "mode" s!"huffman-only emitted {ts.nmatch} matches [{cfg}]"
     if modes.contains "rle" && ts.nonRle != 0 then
-      a := a.fail ln l "mode" s!"run-length mode emitted {ts.nonRle} matches with distance != 1 (max {ts.maxDist})"
+      a := a.fail ln l "mode" s!"run-length mode emitted {ts.nonRle} matches with distance != 1 (max {ts.maxDist}) [{cfg}]"
     if modes.contains "filtered" && ts.nmatch != 0 && ts.minLen < 5 then
-      a := a.fail ln l "mode" s!"filtered mode emitted a match of length {ts.minLen}"
+      a := a.fail ln l "mode" s!"filtered mode emitted a match of length {ts.minLen} [{cfg}]"
     if checks.contains "window" && zlib then
       let wb := l.nat "wb"
       let declared := 2 ^ (d.cmf / 16 + 8)
@@ -136,9 +139,83 @@ def opEnc (a : Acc) (ln : Nat) (l : Line) : Acc := Id.run do
         a := a.fail ln l "header" "invalid zlib header"
   return a
 
+/-- `PFX`: bytes emitted up to a flush point must decode, with nothing further, to all input so far. -/
+def opPfx (a : Acc) (ln : Nat) (l : Line) : Acc := Id.run do
+  let inp := l.bytes "in"
+  let out := l.bytes "out"
+  let zlib := l.nat "fmt" == 1
+  let kind := l.nat "kind"
+  let mut a := a.bump "pfx"
+  a := a.bump s!"pfx_kind_{kind}"
+  if zlib && !(match out[0]?, out[1]? with | some c, some f => zlibHeaderValid c.toNat f.toNat | _, _ => false) then
+    return a.fail ln l "prefix" "zlib header missing or invalid at flush point"
+  match inflateSpec #[] 32768 out (if zlib then 16 else 0) with
+  | .truncated p =>
+    if !sameBytes p inp then
+      a := a.fail ln l "prefix" s!"prefix of {out.size} bytes decodes to {p.size} bytes, input so far is {inp.size} (first difference at {firstDiff p inp})"
+  | .accept _ => a := a.fail ln l "prefix" "prefix contains a final block before Finish"
+  | .reject w => a := a.fail ln l "prefix" s!"prefix rejected by the reference decoder: {rejectName w}"
+  | .fuel => a := a.fail ln l "prefix" "fuel"
+  if kind == 2 || kind == 3 then
+    let n := out.size
+    if n < 4 || out[n-4]! != 0 || out[n-3]! != 0 || out[n-2]! != 255 || out[n-1]! != 255 then
+      a := a.fail ln l "marker" "sync/full flush output does not end with 00 00 FF FF"
+  return a
+
+/-- `TAIL`: the part of a finished stream after a full flush decodes on its own. -/
+def opTail (a : Acc) (ln : Nat) (l : Line) : Acc := Id.run do
+  let tail := l.bytes "tail"
+  let expect := l.bytes "expect"
+  let zlib := l.nat "fmt" == 1
+  let mut a := a.bump "tail"
+  match inflateSpec #[] 32768 tail 0 with
+  | .accept r =>
+    if !sameBytes r.out expect then
+      a := a.fail ln l "fullflush" s!"tail after full flush decodes to {r.out.size} bytes, expected {expect.size} (first difference {firstDiff r.out expect})"
+    if (r.bitsUsed + 7) / 8 + (if zlib then 4 else 0) != tail.size then
+      a := a.fail ln l "fullflush" "tail length mismatch"
+  | .reject w => a := a.fail ln l "fullflush" s!"tail after full flush is not decodable on its own: {rejectName w}"
+  | .truncated _ => a := a.fail ln l "fullflush" "tail truncated"
+  | .fuel => a := a.fail ln l "fullflush" "fuel"
+  return a
+
+/-- `HDR`: a two-byte zlib header in front of a fixed valid body, decoded flat (`ring=0`) or
+    with a ring buffer of `ring` bytes; `st` is the implementation's final status. -/
+def opHdr (a : Acc) (ln : Nat) (l : Line) : Acc := Id.run do
+  let cmf := l.nat "cmf"
+  let flg := l.nat "flg"
+  let ring := l.nat "ring"
+  let st := l.int "st"
+  let expectOk := zlibHeaderValid cmf flg && (ring == 0 || ring ≥ 2 ^ (cmf / 16 + 8))
+  let mut a := a.bump "hdr"
+  if expectOk then a := a.bump "hdr_valid"
+  if expectOk && st != 0 then
+    a := a.fail ln l "header" s!"valid header cmf={cmf} flg={flg} ring={ring} rejected (status {st})"
+  if !expectOk && st == 0 then
+    a := a.fail ln l "header" s!"invalid header cmf={cmf} flg={flg} ring={ring} accepted"
+  if !expectOk && st != -1 then
+    a := a.fail ln l "header" s!"invalid header cmf={cmf} flg={flg} ring={ring}: status {st}, expected Failed"
+  return a
+
+/-- `CK`: a checksum value reported by the implementation against the L0 definition. -/
+def opCk (a : Acc) (ln : Nat) (l : Line) : Acc := Id.run do
+  let data := l.bytes "data"
+  let init := l.nat "init"
+  let got := l.nat "got"
+  let kind := l.get "kind"
+  let want := if kind == "crc" then crc32 init data.toList else adler32 init data.toList
+  let mut a := a.bump ("ck_" ++ kind)
+  if want != got then
+    a := a.fail ln l "checksum" s!"{kind} of {data.size} bytes from {init} ({l.get "what"}): implementation {got}, definition {want}"
+  return a
+
 def dispatch (a : Acc) (ln : Nat) (l : Line) : Acc :=
   match l.op with
   | "ENC" => opEnc a ln l
+  | "PFX" => opPfx a ln l
+  | "TAIL" => opTail a ln l
+  | "HDR" => opHdr a ln l
+  | "CK" => opCk a ln l
   | "" => a
   | "#" => a
   | _ => a.bump ("unknown_op_" ++ l.op)
